@@ -180,9 +180,26 @@ pub fn generate(rng: &mut Rng) -> TabScenario {
         // one detail, so that "equal value" is decided on the whole value
         if !pool_v.is_empty() && rng.permille(250) {
             let mut t = rng.pick(&pool_v).clone();
-            match rng.below(3) {
+            match rng.below(7) {
                 0 => t.docs.push(text(rng, &cfg.strs)),
                 1 => t.path.push(text(rng, &cfg.strs)),
+                // the original path becomes a proper suffix / the empty path
+                2 => t.path.insert(0, text(rng, &cfg.strs)),
+                3 => t.path.clear(),
+                4 => {
+                    // same name and parameters, another definition
+                    t.def = gen_ptype(rng, &cfg.strs, near, cfg.big_ids).def;
+                }
+                5 => {
+                    if let Some(p) = t.params.first_mut() {
+                        p.1 = match p.1 {
+                            Some(x) => Some(x.wrapping_add(1)),
+                            None => Some(0),
+                        };
+                    } else {
+                        t.params.push((text(rng, &cfg.strs), Some(0)));
+                    }
+                }
                 _ => t.params.push((text(rng, &cfg.strs), None)),
             }
             pool_v.push(t);
@@ -327,6 +344,22 @@ fn run_builder(scn: &TabScenario, mask: Mask, res: &mut TabResult) -> Check {
             let (inserted, idx) = model.insert(v);
             core::log_u64(got as u64);
             if got as usize != idx {
+                // the same observation, read as C05 reads it: equal values share
+                // an id, different values never do
+                if inserted {
+                    if (got as usize) < model.v.len() - 1 {
+                        fail(mask, "C05", "builder.distinct_values_share_id", || {
+                            format!(
+                                "op {} ({}): a value that was never registered got the id {} of a different value",
+                                k, what, got
+                            )
+                        })?;
+                    }
+                } else {
+                    fail(mask, "C05", "builder.equal_value_got_another_id", || {
+                        format!("op {} ({}): a value registered as {} was registered again and got {}", k, what, idx, got)
+                    })?;
+                }
                 fail(mask, "C12", "builder.register_index", || {
                     format!(
                         "op {} ({}): register_type returned {}, a duplicate-free list gives {} (inserted: {})",
@@ -453,9 +486,8 @@ fn run_builder(scn: &TabScenario, mask: Mask, res: &mut TabResult) -> Check {
                     probe("checks.builder_finish_closed_for_disciplined_clients");
                 }
                 // resolve agrees with position
-                for (i, (id, _)) in p.types.iter().enumerate() {
-                    if out.resolve(*id).map(PType::from_lib).as_ref() != want.types.get(i).map(|x| &x.1)
-                    {
+                for (i, (id, t)) in p.types.iter().enumerate() {
+                    if *id as usize == i && out.resolve(*id).map(PType::from_lib).as_ref() != Some(t) {
                         fail(mask, "C01", "resolve.builder_finish", || {
                             format!("op {}: resolve({}) is not entry {}", k, id, i)
                         })?;
@@ -726,10 +758,17 @@ pub fn execute(scn: &TabScenario, mask: Mask) -> Result<TabResult, Violation> {
     match r {
         Ok(Ok(())) => Ok(res),
         Ok(Err(v)) => Err(v),
-        Err(msg) => Err(Violation {
-            property: if mask.has("C12") { "C12" } else { "C01" }.to_string(),
+        // a panicking builder or interner call is C12's business ("the
+        // observable results equal those of a duplicate-free list"); under
+        // another property the run just ends
+        Err(msg) if mask.has("C12") => Err(Violation {
+            property: "C12".to_string(),
             clause: core::panic_clause(&msg),
             detail: format!("library code panicked: {}", msg),
         }),
+        Err(_) => {
+            probe("builder_panicked_under_a_check_that_does_not_answer_for_it");
+            Ok(res)
+        }
     }
 }
